@@ -322,6 +322,9 @@ const SMALL: &[char] = &['a', '\n', '\r', '\u{8}', '(', ')'];
 const RICH: &[char] = &[
     'a', 'b', 'Z', ' ', '(', ')', '[', ']', '{', '}', '\n', '\n', '\n', '\r', '\u{8}', '\u{8}', '\u{8}', 'é', '漢',
     '😀', '\u{0301}', '\u{200D}', 'e', '\u{2764}', '\u{FE0F}', '\u{1F1E6}',
+    // spacing marks and a prepend character: clusters that exist only under the EXTENDED rules
+    // (seeded change C18-m8: `graphemes(input, false)` in apply_backspace_direct)
+    '\u{0915}', '\u{093E}', '\u{0903}', '\u{0E33}', '\u{0600}',
 ];
 
 fn rand_script(rng: &mut Rng) -> String {
